@@ -168,6 +168,14 @@ Qed.
    the statistics speak for the code only under this hypothesis (thresholds read as the rationals
    the user wrote); the harness (threshold_hit_cases) places count ratios exactly on 0.7 / 0.1 / 0.8 and
    counts what the real code does there (evidence key c11_threshold_hit_exactly). *)
+(* THE TWO q1 CLAUSES ARE KEPT (audit 4, A6), although they are stronger than needed: q1 = max(ge1/n) is ONE
+   correctly rounded division compared with a correctly rounded literal, so fl(ge1/n) = fl(x/S) when
+   ge1/n = x/S and otherwise the two differ by >= 1/(n S) >> one ulp: binary64 and the rationals decide
+   `q1 > th` and `q1 < floor` identically (checked outside Coq: 45,045,000 comparisons, all a/n with
+   n <= 3000 against 0.5, 0.1, 0.7, 0.8, 0.3, `>` and `<`: 0 disagreements).  That is a theorem about `fl`
+   (strict monotonicity across a relative gap of 2^-52) which is NOT proved here, and dropping the clauses
+   would make the q1 part of crit_strict non-strict; so the hypothesis stays and costs what the audit
+   measured: 2.87 % of the count quadruples with n <= 40 fail off_threshold, 85 % of them via q1 alone. *)
 Definition rne (r : rat) (S x : Z) : Prop := fst r * S <> x * snd r.          (* r <> x/S *)
 Definition off_threshold (th : thresholds) (D S : Z) (c1 c2 : cstat) : Prop :=
   rne (q1_r c1 c2) S (q1_th th) /\ rne (q1_r c1 c2) S (q1_min th) /\
@@ -707,3 +715,18 @@ Proof.
   destruct (Hat g (2 * H) Hp) as (_ & Hk & _). destruct (Hk HT) as (Hkeep & _).
   rewrite Hkeep in Ha. assert (Ea : a = 2 * H) by congruence. lia.
 Qed.
+
+(* ------------------------------------------------------------------ *)
+(* audit 4, A6: the cluster-size hypothesis of the model.  The real n_cells is an np.int64 and
+   n**3 - n**2 is computed in int64; kterm computes it over Z.  The two agree for every n up to 2^21:
+   the true value is below 2^63 (for n = 2^21 the intermediate n**3 = 2^63 wraps and the subtraction wraps
+   back: the int64 result is still the true value). *)
+Definition cells_in_int64_range (n : Z) : Prop := 0 <= n <= 2 ^ 21.
+Lemma kterm_den_no_int64_wrap n : cells_in_int64_range n -> 0 <= n * n * n - n * n < 2 ^ 63.
+Proof.
+  unfold cells_in_int64_range. change (2 ^ 21) with 2097152. change (2 ^ 63) with 9223372036854775808.
+  intros H. nia.
+Qed.
+(* ... and the bound is tight: the next size wraps *)
+Lemma kterm_den_wraps_above : let n := 2 ^ 21 + 1 in 2 ^ 63 <= n * n * n - n * n.
+Proof. vm_compute. discriminate. Qed.
